@@ -597,6 +597,9 @@ func c09CssTrigger(k c09CssCase, in []c09CssTok, inOpen bool) []string {
 			add("K-C09-CSS-6") // … and a url cut off by EOF loses its last byte
 		}
 	}
+	if c09CssHexThenEscapedNl.MatchString(src) {
+		add("K-C09-CSS-11") // removing the escaped newline lets the hex escape in front of it run on
+	}
 	if c09CssHexCRLF.MatchString(src) {
 		add("K-C09-CSS-10") // hex escape terminated by CRLF: the dependency lexer takes the CR only
 	}
@@ -698,7 +701,7 @@ func c09CssTrigger(k c09CssCase, in []c09CssTok, inOpen bool) []string {
 			inAttr = true
 		} else if t.tt == c09CssRBracket {
 			inAttr = false
-		} else if inAttr && i > 0 && t.ws && (t.tt == c09CssIdent || c09CssIsNum(t.tt)) && !(len(t.lex) == 1 && (t.lex == "i" || t.lex == "I" || t.lex == "s" || t.lex == "S")) &&
+		} else if inAttr && i > 0 && t.ws && c09CssIsNum(t.tt) &&
 			(in[i-1].tt == c09CssIdent || in[i-1].tt == c09CssString || c09CssIsNum(in[i-1].tt) || in[i-1].tt == c09CssHash) {
 			add("K-C09-CSS-4")
 		}
@@ -706,6 +709,7 @@ func c09CssTrigger(k c09CssCase, in []c09CssTok, inOpen bool) []string {
 	return ids
 }
 
+var c09CssHexThenEscapedNl = regexp.MustCompile(`\\[0-9a-fA-F]{1,6}\\(\r\n|\n|\r)`)
 var c09CssHexCRLF = regexp.MustCompile(`\\[0-9a-fA-F]{1,6}\r\n`)
 
 func c09CssNameByte(c byte) bool {
@@ -781,6 +785,8 @@ func c09CssKnownExplains(id, failed string) bool {
 		return outside
 	case "K-C09-CSS-10":
 		return written || value || outside
+	case "K-C09-CSS-11":
+		return value || written
 	case "K-C09-CSS-6", "K-C09-CSS-8", "K-C09-CSS-9":
 		return true // error recovery on malformed input: any of the checks may notice
 	}
@@ -1174,7 +1180,7 @@ var c09CssValueToks = []string{
 }
 
 // tokens that provoke the known findings; used with lower probability so that the clean classes dominate
-var c09CssKnownToks = []string{"f(rgb(0,0,0)a)", "f(1.0.5)", "f(rgb(255,0,0)10%)", "\\\n", "f(rgba(0,0,0,1)1)", "f(1e0.5)", "f(hsl(0,100%,50%)x)"}
+var c09CssKnownToks = []string{"\"\\31\\\n2\"", "\"x\\31\\\n y\"", "url(\"abcdefghijkl\\31\\\n2\")", "f(rgb(0,0,0)a)", "f(1.0.5)", "f(rgb(255,0,0)10%)", "\\\n", "f(rgba(0,0,0,1)1)", "f(1e0.5)", "f(hsl(0,100%,50%)x)"}
 
 var c09CssProps = []string{"b", "x-y", "margin", "color", "width", "font-family", "content", "grid-area", "border", "outline", "flex", "transform", "src", "z-index",
 	"background-position", "font-weight", "unicode-range", "box-shadow", "filter", "-ms-filter", "border-color", "background-size", "*zoom", "_height", "cursor", "quotes", "transition"}
@@ -1345,7 +1351,7 @@ var c09CssFixedCorpus = []string{
 	"a{b:1e 3}", "a{b:- a}", "a{b:# a}", "a{b:@ a}", "a{b:. 5}", "a{b:u+1 ?}", "a{b:url( \"a b\" ) c}", "a{b:a\\/ b}", "a{b:a\\) b}", "a{b:< !-- a}", "a{b:- ->}",
 	"a{rotate:0deg}", "a{b:hypot(0px,3px)}", "a{color:rgb(255,0%,0)}", "a{width:1.5e10px}",
 	// 71d92ee, addcaae
-	"[a=b s]{c:d}", "[a=\"b\" S]{c:d}", "[a=\"b\\31\" i]{c:d}", "@import url(x);", "@import url( \"x\" );", "@namespace Foo \"u\";Foo|a{b:c}", "a::part(Foo){b:c}",
+	"[a=b s]{c:d}", "[a=\"b\" S]{c:d}", "[a=b x]{c:d}", "[a=\"b\\31\" i]{c:d}", "@import url(x);", "@import url( \"x\" );", "@namespace Foo \"u\";Foo|a{b:c}", "a::part(Foo){b:c}",
 }
 
 func c09CssFiles(c *Ctx) []string {
